@@ -314,7 +314,7 @@ class C06(PropBase):
         # the same register under both spellings (`$r3` / `r3` are one rule key), `$` spelling first and later,
         # within one record and across INIT / delta records
         for e in exprs:
-            for k, (w, regs, mb, mh) in enumerate(self.ENVS[:2]):
+            for k, (w, regs, mb, mh) in enumerate(self.ENVS[:1]):
                 addA(w, 5, 0, 16, regs, mb, mh, ".cfa: 16 .ra: 8 r3: 5 $r3: %s" % e)
                 addA(w, 5, 0, 16, regs, mb, mh, ".cfa: 16 .ra: 8 $r3: 5 r3: %s" % e)
                 if k == 0:
